@@ -114,14 +114,14 @@ Qed.
 
 (* the same for the line the model prints *)
 Theorem run_prints_all_freed input :
-  exists ok res nrem time created lg,
-    run input = ([ok; res; nrem; time] ++ created ++ created ++ [0; 0; N.of_nat (length lg / 4)] ++ lg
-                 ++ [ok; res; nrem; time] ++ created ++ created ++ [0; 0; N.of_nat (length lg / 4)] ++ lg ++ [0])%N.
+  exists ok res nrem time created lg cnts,
+    run input = ([ok; res; nrem; time] ++ created ++ created ++ [0; 0; N.of_nat (length lg / 4)] ++ lg ++ cnts
+                 ++ [ok; res; nrem; time] ++ created ++ created ++ [0; 0; N.of_nat (length lg / 4)] ++ lg ++ cnts ++ [0])%N.
 Proof.
   unfold run, run_gen. pose proof (every_simulation_releases_everything input) as H.
-  destruct (stop_state false input) as [[s roots] [[[[res nrem] time] lg] agree]]. cbv zeta in H.
+  destruct (stop_state false input) as [[s roots] [[[[[res nrem] time] lg] agree] cnts]]. cbv zeta in H.
   destruct H as (_ & _ & _ & _ & created & Hv). rewrite Hv.
-  exists (b2n (goodb false s roots && agree)), res, nrem, time, created, lg.
+  exists (b2n (goodb false s roots && agree)), res, nrem, time, created, lg, ([N.of_nat (length cnts)] ++ cnts)%N.
   rewrite <- !app_assoc. cbn [app]. reflexivity.
 Qed.
 
@@ -135,4 +135,17 @@ Proof.
   assert (H : stop_world pin (stop :: arg :: (o + 2) :: rest)%N = stop_world pin (stop :: arg :: o :: rest)).
   { unfold stop_world. cbn [hd0 tl0]. change 2%N with (2 * 1)%N. rewrite N.odd_add_mul_2. reflexivity. }
   unfold run_gen, stop_state. rewrite H. split; reflexivity.
+Qed.
+
+(* The strong count the model prints for an object at a stopping point ([Model.strong_of]) is, in
+   every reachable graph, the number of strong edges into the object plus the number of handles
+   to it held from outside the heap (Sim, statics, event set, caller) -- nothing else. *)
+Theorem counts_are_in_degrees pin input :
+  let '(s, roots, _) := stop_state pin input in
+  forall o, o < length (hp s) ->
+    strong_of (hp s) o = N.of_nat (cnt o (targets (hp s)) + cnt o roots).
+Proof.
+  pose proof (stop_state_good pin input) as Gd. destruct (stop_state pin input) as [[s roots] info].
+  intros o Ho. destruct Gd as [I _ _]. pose proof (i_cnt _ _ I o Ho) as H. unfold rc_of in H. unfold strong_of.
+  destruct (nth_error (hp s) o); [rewrite H; reflexivity|]. rewrite <- H. reflexivity.
 Qed.
